@@ -146,10 +146,15 @@ def run(ctx):
     else:
         atoms = i.atoms() if isinstance(i, Form) else set()
         arith = any(a[0] == "fn" and a[1] in ("mean", "median", "sum", "average") for a in atoms)
+        # any arithmetic combination of elements of the tie set (midpoint of first and last, floor-division, ...)
+        ties_used = [a for a in atoms if a[0] == "idx" and a[1] in tie_sets]
+        top = i.single_atom() if isinstance(i, Form) else None
+        if ties_used and not (top and top[0] == "idx" and top[1] in tie_sets):
+            arith = True
         wrongcand = [a for a in atoms if a[0] == "fn" and a[1] in ("argmin",)]
         if arith:
             ctx.violation("C18.3", fs_, rets[0].node, "shortest_int: index computed from the set of tied minimisers",
-                          "the index is an arithmetic combination (mean) of several minimiser indices; when the ties are not contiguous it is not itself a minimiser, so a wider interval is returned "
+                          "the index is an arithmetic combination (mean / midpoint) of several minimiser indices; when the ties are not contiguous it is not itself a minimiser, so a wider interval is returned "
                           "(e.g. [0,1,2,3,4,10,20,30,31,32,33,34] at 34% gives [3, 30])")
         elif wrongcand:
             ctx.violation("C18.3", fs_, rets[0].node, f"shortest_int: index = {i!r}"[:300], f"argmin is not taken over the lag-differences sorted[lag:] - sorted[:-lag] = {cand!r}")
